@@ -1,12 +1,12 @@
 (* C11 - the generated JSON Schema accepts exactly what the validator accepts (JSON data).
    PARTIAL: the theorem covers scalars (string / integer / float / boolean with length, bound,
    choice, equality, prefix and suffix predicates emitting distinct keywords), equality
-   validators, is-dict, lists with item-count predicates, n-tuples, string-keyed maps with size
+   validators, is-dict, lists and uniform tuples with item-count predicates, n-tuples, string-keyed maps with size
    predicates, every record-shaped validator (RecordValidator, DictValidatorAny, Dataclass /
    NamedTuple / TypedDict validators) with string keys, optional keys and either unknown-key
    policy, optionals and caches, nested to any depth. Unions, not-blank, user regexes, uniqueness
-   and repeated keywords are refuted below; uniform tuples and named recursive schemas are tied
-   by differential execution only. *)
+   and repeated keywords are refuted below; named recursive schemas are tied by differential
+   execution only. *)
 From Coq Require Import ZArith List Bool String.
 From KV Require Import Base.PyVal Base.Prims Model.Validator Model.Sem Model.Schema Model.SchemaSat
      Proofs.SatP Corr.UserLib.
